@@ -2,6 +2,7 @@ pub mod c02;
 pub mod c03;
 pub mod c06;
 pub mod c07;
+pub mod c08;
 pub mod c14;
 pub mod c15;
 pub mod c18;
